@@ -33,11 +33,16 @@ def render_value(r, val, rty, lo, hi, consts):
         forms += ["neg-add", "paren-neg"]
     if val == hi and consts is not None:
         forms.append("max")
+    if lo == 0 and val > 0 and consts is not None and any(val == hi >> k for k in (1, 2, 4)):
+        forms = ["notshr", "notshr", "dec"]     # `!0 >> k`: the value depends on the type the expression is evaluated in
     if val == lo and lo < 0:
         forms = ["min"]
     if lo <= val <= hi and abs(val) < 2**31 and consts is not None:
         forms.append("const")
     f = r.choice(forms)
+    if f == "notshr":
+        k = [k for k in (1, 2, 4) if val == hi >> k][0]
+        return "!0 >> %d" % k
     if f == "dec":
         return str(val) if val >= 0 else "-%d" % -val
     if f == "hex":
@@ -66,7 +71,10 @@ def render_value(r, val, rty, lo, hi, consts):
     if f == "min":
         return "%s::MIN" % rty
     if f == "const":
-        name = "K%d" % len(consts)
+        pool = ["START", "STEP", "BASE", "OFFSET", "COUNT", "FIRST", "ZERO", "ONE", "PREV", "NEXT", "DISCRIMINANT", "MAX_VAL", "N0", "V", "LEN"]
+        name = pool[len(consts)] if len(consts) < len(pool) and r.random() < 0.7 else "K%d" % len(consts)
+        if any(nm == name for nm, _ in consts):
+            name = "K%d" % len(consts)
         consts.append((name, val))
         return name if r.random() < 0.5 else "%s + 0" % name
     return str(val)
@@ -96,7 +104,7 @@ def build(r, name, repr_key, n, mask, fieldless, generics=None, style=None):
                 elif mode == "negative" and lo < 0:
                     cand = r.randint(max(lo, -300), 50)
                 elif mode == "extreme":
-                    cand = r.choice([hi, hi - 1, hi - r.randint(2, 40), lo, lo + 1, lo + r.randint(2, 40)])
+                    cand = r.choice([hi, hi - 1, hi - r.randint(2, 40), lo, lo + 1, lo + r.randint(2, 40), hi >> 1, hi >> 2, hi >> 4])
                 elif mode == "gapped":
                     cand = (prev if prev is not None else r.randint(0, 5)) + r.randint(2, 60)
                 else:
